@@ -45,6 +45,8 @@ pub const EXTRA_DOCS: &[&str] = &[
     "[\"\\ud800\",\"\\udc00\\ud800\",\"\\ud800\\u0041\"]",
     "123456789012345678901234567890.123456789012345678901234567890e-123",
     "\"é€😀\u{7f}\u{feff}\"",
+    // numbers at the edges of every machine representation (the parser keeps them as text)
+    "[0,-0,0.0,-0.0,0e0,1E+2,1e-2,9223372036854775807,9223372036854775808,-9223372036854775809,18446744073709551616,1e308,1e309,-1e-400,4.9e-324,0.1e1,123e45678901234567890]",
     // every escape whose value is itself a special character of some implementation: NUL, the replacement
     // character, non-characters, BOM, line separators
     "[\"\\u0000\\ufffd\\uFFFD\\ufffe\\uffff\\ufeff\\u2028\\u2029\\u007f\\u0080\", {\"\\ufffd\": \"\\ud7ff\\ue000\"}]",
